@@ -207,6 +207,7 @@ def run(tier, rep):
                     add('lshift', (a, c), (ra, rc), 'shift')
                     add('rshift', (a, c), (ra, rc), 'shift')
                     add('ilshift', (a, c), (ra, rc), 'shift')
+                    add('irshift', (a, c), (ra, rc), 'shift')
         for c in (2 ** 31, 2 ** 62, 2 ** 63 - 1, 2 ** 63, 2 ** 64, 2 ** 127):
             for ra in reps(a):
                 add('rshift', (a, c), (ra, False), 'shift-huge')
@@ -219,6 +220,7 @@ def run(tier, rep):
             for ra in reps(a):
                 for re_ in reps(e):
                     add('pow', (a, e), (ra, re_), 'pow')
+                    add('ipow', (a, e), (ra, re_), 'pow')
     smallL = [v for v in L if abs(v) <= 2 or abs(abs(v) - 2 ** 63) <= 1 or abs(abs(v) - 2 ** 31) <= 1 or abs(abs(v) - 2 ** 64) <= 1 or abs(abs(v) - math.isqrt(2 ** 63 - 1)) <= 1]
     pexps = [0, 1, 2, 3, 63, 64, 2 ** 63 - 1, 2 ** 63, 2 ** 64 + 1, -1, -2 ** 63]
     mods = [v for v in smallL]
@@ -288,6 +290,13 @@ def run(tier, rep):
                 rep.violation(base_sig + 'exc-instead-of-value:%s' % g['exc'], witness)
             continue
         got = dec_result(g['val'])
+        # ints are immutable: no operator, in-place ones included, may change an operand that someone else still refers to
+        aft = g.get('after')
+        if aft is not None:
+            changed = [i for i, (v, a_) in enumerate(zip(vals, aft)) if not isinstance(v, (str, bool)) and dec_result(a_) != ('int', str(v)) and dec_result(a_) != ('int', v)]
+            if changed:
+                rep.violation(base_sig + 'operand-mutated', dict(witness, operands_after=[dec_result(a_) for a_ in aft]))
+                continue
         if kind == 'exc':
             rep.violation(base_sig + 'value-instead-of-exc:%s' % '/'.join(sorted(exp)), witness)
         elif got != exp:
